@@ -325,6 +325,9 @@ func checkFieldUseDiscipline(r *Reporter, p *Prog, pkg, typ string) {
 // at most one, and none of them sits in a loop. A scan under the read lock followed by a write
 // section, or a key snapshot followed by per-key locked reads, is not one step any more: writes
 // of other goroutines fall between the sections.
+// laterCallees: methods that keep their function argument and run it later (schedulers, subscriptions).
+var laterCallees = map[string]bool{"ExecuteAt": true, "ExecuteAfter": true, "Submit": true, "AfterFunc": true, "Hook": true, "OnTrigger": true, "OnUpdate": true}
+
 func checkAtomicOperations(r *Reporter, p *Prog, rule, pkg, typ string, mutexField ...string) {
 	info := p.Pkg(pkg).TypesInfo
 	methods := p.Methods(pkg, typ)
@@ -368,7 +371,19 @@ func checkAtomicOperations(r *Reporter, p *Prog, rule, pkg, typ string, mutexFie
 						walk(x.Body, true)
 					}
 					return false
+				case *ast.GoStmt:
+					return false // another goroutine: not part of this operation
 				case *ast.CallExpr:
+					// a function literal handed to a scheduler / subscription runs later, as an operation of its
+					// own (the wrapper of TaskExecutor.ExecuteAt): only the other arguments belong to this call
+					if se, ok := ast.Unparen(x.Fun).(*ast.SelectorExpr); ok && laterCallees[se.Sel.Name] {
+						for _, a := range x.Args {
+							if _, isLit := ast.Unparen(a).(*ast.FuncLit); !isLit {
+								walk(&ast.ExprStmt{X: a}, loop)
+							}
+						}
+						return false
+					}
 					if op, path := lockOp(info, x); op == "Lock" || op == "RLock" {
 						own := path == recvPath || len(path) > len(recvPath) && path[:len(recvPath)+1] == recvPath+"." && !containsDotAfter(path, len(recvPath)+1, info, x)
 						if len(mutexField) > 0 {
